@@ -33,7 +33,7 @@ var c18OddKeys = []string{"a b", "é", "日本", "", "k\"q", "k\\s", "1x", "a.b"
 
 var c18Strings = []string{"", "x", "hello world", "true", "false", "null", "123", "-1", "1e5", "1.5", "a:b", "[x]", "{y}", "{", "}", "[", "]", ",",
 	"//c", "#h", "'q'", "\"dq\"", " lead", "trail ", "tab\there", "nl\nhere", "cr\rhere", "back\\slash", "sl/ash", "\x01\x02", "\x1f", "\x7f",
-	"é", "ß∂ƒ", "日本語", "😀", "a😀b", " ", "\ufeff", "<tag>&amp;", "@2024-01-02T03:04:05Z", "2024-01-02", "2024-01-02T03:04:05Z", "2024-02-29", "2024-01-02T03:04:05.123456789+02:00", "second", "nano", "rfc3339", "$", "@", "*", "..", "nil", "t", ":false"}
+	"é", "ß∂ƒ", "日本語", "😀", "a😀b", " ", "\ufeff", "<tag>&amp;", "@2024-01-02T03:04:05Z", "2024-01-02", "2024-01-02T03:04:05Z", "2024-02-29", "2024-01-02T03:04:05.123456789+02:00", "$", "@", "*", "..", "nil", "t", ":false"}
 
 func (g *c18Gen) pick(xs []string) string { return xs[g.r.Intn(len(xs))] }
 
